@@ -20,6 +20,8 @@ type Pkg = msi::Package<crate::medium::Handle>;
 pub struct Bed {
     pub pkg: Pkg,
     pub row: msi::Row,
+    /// the same row with its columns in reverse order (a projection): evaluation goes by name, not position
+    pub row_rev: msi::Row,
     pub env: Vec<(String, V)>,
 }
 
@@ -61,7 +63,9 @@ pub fn make_bed() -> Bed {
     let row = pkg.select_rows(msi::Select::table("X")).expect("select X").next().expect("one row");
     let names = ["K", "cNull", "c0", "c1", "cM1", "c2", "c31", "c32", "cMax", "cA", "cB"];
     let env = names.iter().zip(vals.iter()).map(|(n, v)| (n.to_string(), v.clone())).collect();
-    Bed { pkg, row, env }
+    let rev: Vec<&str> = names.iter().rev().cloned().collect();
+    let row_rev = pkg.select_rows(msi::Select::table("X").columns(&rev)).expect("select X reversed").next().expect("one row");
+    Bed { pkg, row, row_rev, env }
 }
 
 /// Replaces literal leaves by column references holding the same value.
@@ -115,7 +119,15 @@ fn shape(e: &MExpr) -> String {
 fn eval_lib(bed: &Bed, e: &MExpr) -> Result<V, crate::panicmon::PanicInfo> {
     guarded(|| {
         let x = em::lower(e);
-        V::from_msi(&x.eval(&bed.row))
+        let v = V::from_msi(&x.eval(&bed.row));
+        // the same expression object on a row with another column layout, and on the first row again
+        let v2 = V::from_msi(&x.eval(&bed.row_rev));
+        let v3 = V::from_msi(&x.eval(&bed.row));
+        if v2 != v || v3 != v {
+            // reported by the caller as a result outside the admissible set
+            return V::Str(format!("<inconsistent: {} on the table row, {} on the same row with reversed columns, {} on the table row again>", v.to_json(), v2.to_json(), v3.to_json()));
+        }
+        v
     })
 }
 
